@@ -284,15 +284,16 @@ func (s *LinearState) search(ctx *Context, pattern Map, lock bool) (*SearchResul
 	timer := NewTimer(ctx, "LinearState.search")
 	defer timer.Stop()
 
-	now := time.Now().UTC().Unix()
-	// ToDo: Mutex
-
 	srs := SearchResults{}
 	srs.Found = make([]SearchResult, 0, 0)
 	if lock {
 		s.slock(ctx, true)
 		defer s.sunlock(ctx, true)
 	}
+	// Read the clock once we have the lock: what has expired by
+	// the time we look at the facts must not be found, however long
+	// we waited for the lock.
+	now := time.Now().UTC().Unix()
 	for id, rf := range s.Facts {
 		srs.Checked++
 		expired, err := s.expire(ctx, id, rf.M, now)
